@@ -214,7 +214,51 @@ def _mk_path(L, private, markers):
     return contract('bitcoinlib.keys.HDKey.subkey_for_path', case=name, props=('C03', 'C09'))(cls)
 
 
+def _req_M(self, n0):
+    # as for child_public: the point-at-infinity child (probability 2^-256) is assumed away
+    il = int.from_bytes(bip32.hmac512(self.chain, self.public_byte + bip32.ser32(n0 & 0xffffffff))[:32], 'big')
+    pt = ec.mul_g(self.secret)
+    # no point of secp256k1 has x = 0 (7 is not a square mod p) or y = 0 (the group has odd prime order): stated, not derived
+    return ec.add(ec.mul_g(il), pt) != ec.INF and pt[0] != 0 and pt[1] != 0
+
+
+def _mk_path_M(marker):
+    """'M/<item>' on a PRIVATE key: the first step is a public derivation from the key's public point, so a hardened item must be refused"""
+    name = 'path1-privM-%s' % (marker or 'none')
+
+    def spec(self, n0):
+        st = ('public', ec.mul_g(self.secret), self.chain, self.depth)
+        return _step(st, n0, marker)
+
+    def call(self, n0):
+        return {'path': ['M', path_item(n0, marker)]}
+
+    def init_M(self):
+        # representation invariant of a private HDKey: byte forms and public point all belong to the one secret
+        self.private_byte = bip32.ser256(self.secret)
+        pt = ec.mul_g(self.secret)
+        self.public_byte = bip32.ser_p(pt)
+        self._x, self._y = pt
+        self.x_hex = None
+        self.y_hex = None
+
+    def must_raise(self, n0):
+        return spec(self, n0) is None
+
+    def ensures(self, n0, result):
+        r = spec(self, n0)
+        return _child_tuple(result)[0] == bip32.ser_p(r[1]) and result.chain == r[2] and result.depth == r[3] and result.child_index == r[4]
+
+    d = {'params': {'self': _PrivT, 'n0': Int(0, 2 ** 32 - 1)}, 'call': call, 'ensures': ensures, 'raises_iff': {BKeyError: must_raise},
+         'init': init_M, 'prepare': lambda self, **kw: {'self': _real_priv(self)},
+         'requires': _req_M if marker == '' else None,
+         '__doc__': "subkey_for_path(['M', item]) on a private key (marker %r): the public child of the key's public point; a hardened item raises" % marker}
+    return contract('bitcoinlib.keys.HDKey.subkey_for_path', case=name, props=('C03', 'C09'))(type(name, (), d))
+
+
 PATH_CASES = []
+for _m in MARKERS:
+    PATH_CASES.append(_mk_path_M(_m)._contract.key)
 for _m in MARKERS:
     PATH_CASES.append(_mk_path(1, True, [_m])._contract.key)
     PATH_CASES.append(_mk_path(1, False, [_m])._contract.key)
